@@ -35,7 +35,7 @@ def dcut(a, b, t):
 
 
 def gen_cases(tier, seed):
-    n = 96 if tier == "quick" else 3000
+    n = 192 if tier == "quick" else 3000
     cases = []
     for i in range(n):
         rng = bases.rng_for("C20", seed, tier, i)
